@@ -23,6 +23,9 @@ pub struct TokenObserver {
     pub first_excess: Option<String>,
     pub samples: u64,
     pub followers_seen: bool,
+    /// lids of nested `redo -j1 ...` processes: the subtree below each is serial
+    serial_roots: BTreeSet<String>,
+    pub nested_excess: Option<String>,
 }
 
 impl TokenObserver {
@@ -71,6 +74,7 @@ impl Observer for TokenObserver {
         }
         self.seen_events = 0;
         self.working.clear();
+        self.serial_roots.clear();
     }
     fn at_quiescent(&mut self, sim: &Sim, group: usize) {
         if group != self.judged_group {
@@ -88,6 +92,9 @@ impl Observer for TokenObserver {
                 EvKind::Dead => {
                     self.working.remove(&e.lid);
                 }
+                EvKind::Op(Class::Proc) if e.text.starts_with("exec redo -j1 ") && e.lid.contains('.') => {
+                    self.serial_roots.insert(e.lid.clone());
+                }
                 _ => {}
             }
         }
@@ -103,6 +110,21 @@ impl Observer for TokenObserver {
             .count() as u32;
         if followers > 0 {
             self.followers_seen = true;
+        }
+        // below a nested `redo -j1` at most one script works at a time (plus the
+        // one the log viewer follows)
+        for root in &self.serial_roots {
+            let prefix = format!("{}.", root);
+            let inside: Vec<&String> = self.working.iter().filter(|l| l.starts_with(&prefix)).collect();
+            if inside.len() as u32 > 1 + followers.min(1) && self.nested_excess.is_none() {
+                self.nested_excess = Some(format!(
+                    "at step {}: {} scripts inside their work section ({:?}) below the nested `redo -j1` process {}",
+                    sim.step,
+                    inside.len(),
+                    inside,
+                    root
+                ));
+            }
         }
         let b = self.pipe_bytes(sim).unwrap_or(0);
         self.samples += 1;
@@ -142,7 +164,8 @@ impl Property for C08 {
          the scenarios four follow-up runs that hold back one chosen wake-up each until nothing else can run); oracle at every scheduling \
          step: scripts inside a work section + bytes in the token pipe <= N (+1 per live redo-log); at \
          the end: no 'expected N tokens' self-check failure, exit status as the scripts dictate, and \
-         exactly K bytes left in an inherited pipe; non-trivial = >=1 preemption and >=1 script; distinct \
+         exactly K bytes left in an inherited pipe; every eighth scenario nests `redo -j1 mid` below the \
+         parallel build: at most one script (plus the one the log viewer follows) works below it at any step; non-trivial = >=1 preemption and >=1 script; distinct \
          = (scenario, preemption signature)"
     }
     fn generate(&self, rng: &mut Rng, seed: u64, _tier: Tier, index: u64) -> Case {
@@ -198,6 +221,32 @@ impl Property for C08 {
                 stmts: vec![Stmt::IfChange(top_deps.clone())],
             },
         ));
+        let nested_serial = index % 8 == 6;
+        if nested_serial {
+            // top -> `redo -j1 mid` -> redo-ifchange of all leaves: the subtree
+            // the user asked to serialize
+            rules.retain(|(p, _)| p.starts_with('l'));
+            for (_, r) in rules.iter_mut() {
+                r.stmts.retain(|st| !matches!(st, Stmt::FailIf { .. }));
+            }
+            let mut ls = leaves.clone();
+            rng.shuffle(&mut ls);
+            rules.push((
+                "mid.do".into(),
+                Rule {
+                    version: 0,
+                    stmts: vec![Stmt::IfChange(ls)],
+                },
+            ));
+            rules.push((
+                "top.do".into(),
+                Rule {
+                    version: 0,
+                    stmts: vec![Stmt::Redo(vec!["-j1".into(), "mid".into()])],
+                },
+            ));
+            top_deps = vec!["top".into()];
+        }
         let cheat_prone = index % 4 == 3;
         if cheat_prone {
             // A and B share X; C.. hold tokens for long: the second waiter for X
@@ -386,6 +435,8 @@ impl Property for C08 {
             first_excess: None,
             samples: 0,
             followers_seen: false,
+            serial_roots: BTreeSet::new(),
+            nested_excess: None,
         })
     }
     fn check(&self, case: &Case, rec: &RunRecord, obs: &dyn Observer) -> Vec<Violation> {
@@ -407,6 +458,12 @@ impl Property for C08 {
         if let Some(e) = &to.first_excess {
             v.push(Violation {
                 kind: "token-limit-exceeded".into(),
+                detail: format!("{:?}: {}", g.cmds[0].argv, e),
+            });
+        }
+        if let Some(e) = &to.nested_excess {
+            v.push(Violation {
+                kind: "nested-serial-exceeded".into(),
                 detail: format!("{:?}: {}", g.cmds[0].argv, e),
             });
         }
